@@ -42,9 +42,14 @@ func splitKeys(n, parts int) [][]int {
 // ---------------------------------------------------------------------------------------------
 // C05: compaction is invisible - writers in the lock-release windows, crash points inside Compact.
 
-type compactEngine struct{ t *testing.T }
+type compactEngine struct {
+	t *testing.T
+	// ploss: C06 under concurrency - Sync calls race with writers and compaction, the images are
+	// power-loss images (per-file synced content + a prefix of what was written since)
+	ploss bool
+}
 
-func (compactEngine) Generate(rng *rand.Rand, prop string, thorough bool) *Plan {
+func (c compactEngine) Generate(rng *rand.Rand, prop string, thorough bool) *Plan {
 	cfg := GenConcCfg(rng, prop)
 	cfg.NKeys = 3 + rng.Intn(10)
 	cfg.CompMinSeg = 1
@@ -64,7 +69,14 @@ func (compactEngine) Generate(rng *rand.Rand, prop string, thorough bool) *Plan 
 		cfg.MaxSeg = []uint32{1024, 2048, 4096}[rng.Intn(3)]
 		cfg.FSYields = false
 	}
+	if c.ploss {
+		cfg.SyncMode = 1 + rng.Intn(2)
+		cfg.BgSyncMs = 0
+	}
 	p := &Plan{Property: prop, Engine: "compact", Cfg: cfg}
+	if c.ploss {
+		p.Engine = "compact-ploss"
+	}
 	keys := GenKeys(rng, KeyFamily(cfg.Family), cfg.NKeys, cfg.HashSeed)
 	p.Cfg.NKeys = len(keys)
 	cfg.NKeys = len(keys)
@@ -94,7 +106,14 @@ func (compactEngine) Generate(rng *rand.Rand, prop string, thorough bool) *Plan 
 		if len(parts[w]) == 0 {
 			parts[w] = []int{0}
 		}
-		p.Tasks = append(p.Tasks, genClient(rng, cfg, 3+rng.Intn(25), map[string]int{"put": 50, "del": 30, "get": 10, "has": 3}, parts[w], &id, sizes))
+		ww := map[string]int{"put": 50, "del": 30, "get": 10, "has": 3}
+		if c.ploss && cfg.SyncMode == 1 {
+			ww["sync"] = 12
+		}
+		p.Tasks = append(p.Tasks, genClient(rng, cfg, 3+rng.Intn(25), ww, parts[w], &id, sizes))
+	}
+	if c.ploss && cfg.SyncMode == 1 && rng.Intn(2) == 0 {
+		p.Tasks = append(p.Tasks, genClient(rng, cfg, 1+rng.Intn(5), map[string]int{"sync": 10, "count": 2}, all, &id, sizes))
 	}
 	// the compactor
 	p.Tasks = append(p.Tasks, genClient(rng, cfg, 1+rng.Intn(4), map[string]int{"compact": 10}, all, &id, sizes))
@@ -153,6 +172,9 @@ func (c compactEngine) Execute(p *Plan) *RunResult {
 	if v := checkCountBounds(cr.hist, p.KeyBytes()); v != nil {
 		res.V = v
 		return res
+	}
+	if c.ploss {
+		return c.powerLossSweep(p, cr, res)
 	}
 	// single-writer check of the plan (main preload happens-before the clients)
 	// crash points inside Compact calls (and right after them)
@@ -709,4 +731,114 @@ func (m multiEngine) Execute(p *Plan) *RunResult {
 		panic("no engine " + p.Engine)
 	}
 	return e.Execute(p)
+}
+
+// allowedAfterPowerLoss: per key, the value as of the last completed sync point or any value written
+// (deletion made) after it. A Sync covers every write that had returned before the Sync was invoked.
+func allowedAfterPowerLoss(hist []*HistEv, keys [][]byte, s int64, syncEveryWrite bool) (map[string]valset, *oracle) {
+	o := newOracle()
+	var lastSyncInv int64 = -1
+	for _, ev := range hist {
+		if (ev.Op.K == "sync" || ev.Op.K == "close") && ev.Err == "" && ev.Ret != 0 && ev.Ret < s && ev.Inv > lastSyncInv {
+			lastSyncInv = ev.Inv
+		}
+	}
+	al := map[string]valset{}
+	wbk := writesByKey(hist, keys)
+	for ki, kb := range keys {
+		k := string(kb)
+		base := mval{}
+		var set valset
+		for _, w := range wbk[ki] {
+			o.history[k] = o.history[k].add(evVal(w))
+			covered := w.Ret != 0 && w.Err == "" && ((syncEveryWrite && w.Ret < s) || (lastSyncInv >= 0 && w.Ret < lastSyncInv))
+			if covered {
+				base = evVal(w)
+				set = nil
+			} else if w.Inv < s {
+				set = set.add(evVal(w))
+			}
+		}
+		al[k] = append(valset{base}, set...)
+	}
+	return al, o
+}
+
+func (c compactEngine) powerLossSweep(p *Plan, cr *concResult, res *RunResult) *RunResult {
+	keys := p.KeyBytes()
+	j := cr.env.FS.Journal
+	rng := rand.New(rand.NewSource(p.Seed ^ 0x3c6ef372))
+	// instants: every journal position is a candidate; biased to segment removals, syncs and the writes around them
+	var cand []int
+	for k := 0; k <= len(j); k++ {
+		w := 1
+		if k < len(j) && (j[k].Kind == JRemove || j[k].Kind == JSync || j[k].Kind == JCreate) && strings.HasSuffix(j[k].Name, ".psg") {
+			w = 6
+		}
+		for ; w > 0; w-- {
+			cand = append(cand, k)
+		}
+	}
+	rng.Shuffle(len(cand), func(a, b int) { cand[a], cand[b] = cand[b], cand[a] })
+	seen := map[int]bool{}
+	var pts []int
+	for _, k := range cand {
+		if !seen[k] && len(pts) < 12 {
+			seen[k] = true
+			pts = append(pts, k)
+		}
+	}
+	sort.Ints(pts)
+	rp := NewReplayer(NewImage())
+	applied := 0
+	for _, k := range pts {
+		for applied < k {
+			rp.Apply(&j[applied])
+			applied++
+		}
+		var s int64 = 1 << 60
+		if k < len(j) {
+			s = cr.stamps[k]
+		}
+		lr := rand.New(rand.NewSource(p.Seed ^ int64(k)<<20))
+		images, fams := powerLossImages(rp, lr, crashPoint{k: k}, j)
+		al, o := allowedAfterPowerLoss(cr.hist, keys, s, p.Cfg.SyncMode == 2)
+		for ii, im := range images {
+			res.Evaluations++
+			res.Faults[fams[ii]]++
+			res.Faults["power_loss_in_concurrent_run"]++
+			res.Hashes = append(res.Hashes, fnvAdd(im.Digest(), []byte("c06c"+fams[ii])))
+			if _, v := checkImage(p.Cfg, keys, im, o, al, res.Probes); v != nil {
+				desc := "after the last call"
+				if k < len(j) {
+					desc = fmt.Sprintf("in flight: %s by task %d", j[k], j[k].Task)
+				}
+				if os.Getenv("VERIF_DEBUG") != "" {
+					for _, ev := range cr.hist {
+						fmt.Printf("DEBUG hist task%d %s inv=%d ret=%d n=%d err=%q\n", ev.Task, ev.Op.String(), ev.Inv, ev.Ret, ev.N, ev.Err)
+					}
+					for i := 0; i <= k && i < len(j); i++ {
+						if strings.HasSuffix(j[i].Name, ".pix") {
+							continue
+						}
+						fmt.Printf("DEBUG j[%d] stamp=%d task=%d %s\n", i, cr.stamps[i], j[i].Task, j[i])
+					}
+				}
+				v.Detail = fmt.Sprintf("power loss at journal[%d/%d] stamp %d (%s) family=%s: %s", k, len(j), s, desc, fams[ii], v.Detail)
+				res.V = v
+				return res
+			}
+		}
+	}
+	for _, ev := range cr.hist {
+		if ev.Op.K == "sync" && ev.Task != 0 {
+			res.Probes["sync_calls_in_concurrent_run"]++
+		}
+	}
+	if cr.env.Probes["segment_removed"] > 0 && cr.sim.Switches > 2 {
+		res.Probes["writer_ran_during_compaction"] += countWritesDuringCompaction(cr.hist)
+	}
+	res.NonTrivial = cr.env.Probes["segment_removed"] > 0
+	res.Sample = map[string]interface{}{"seed": p.Seed, "tasks": len(p.Tasks), "ops": p.NumOps(), "steps": res.Steps, "power_loss_instants": len(pts), "sync_mode": p.Cfg.SyncMode, "cfg": p.Cfg}
+	return res
 }
